@@ -219,6 +219,40 @@ ECODE_FAMILY = [
 ]
 
 
+MARKER_SKELETONS = [
+    ("altlone", "t", "t: ({0} | {1} A {2} B {3}) {4} C {5};"),
+    ("opt", "t", "t: {0} A [{1} B {2}] {3} C {4};"),
+    ("star", "t", "t: {0} A ({1} B {2})* {3} C {4};"),
+    ("alt", "t", "t: ({0} A {1} | {2} B {3}) {4} C {5};"),
+    ("choice", "t", "t: {0} A ({1} B {2} / {3} B C {4}) {5};"),
+    ("elided", "t", "t^: {0} A ({1} B {2})+ {3};"),
+    ("start", "s", "s: {0} A [{1} B {2}] {3};"),
+]
+
+
+def marker_family():
+    """Scope of node markers: `<1` in slot i and `1>x` in slot j of every skeleton, for every pair of
+    slots (the same slot included), and the whole-rule creation `>x` in every slot.  Whatever lelwel
+    decides about such a grammar, it either rejects it or emits code that compiles."""
+    out = []
+    for nm, rule, sk in MARKER_SKELETONS:
+        k = sk.count("{")
+        head = "token A B C D;\nstart s;\n" + ("" if rule == "s" else "s: t D;\n")
+        fills = []
+        for i in range(k):
+            for j in range(k):
+                f = [""] * k
+                f[i] = "<1"
+                f[j] = (f[j] + " 1>x").strip()
+                fills.append(("m%dc%d" % (i, j), f))
+            f = [""] * k
+            f[i] = ">x"
+            fills.append(("w%d" % i, f))
+        for tag, f in fills:
+            out.append(("marker_%s_%s" % (nm, tag), head + " ".join(sk.format(*f).split()) + "\n"))
+    return out
+
+
 def selection(tier):
     rng = random.Random(seed())
     texts = []
@@ -242,6 +276,8 @@ def selection(tier):
         texts.append((g["name"], G.render(g), "family"))
     for nm, t in rejected_variants(rng, acc[: (70 if tier == "quick" else 600)]):
         texts.append((nm, t, "rejected"))
+    for nm, t in marker_family():
+        texts.append((nm, t, "family"))
     for k, (code, t) in enumerate(ECODE_FAMILY):
         texts.append(("ecode_%s_%d" % (code, k), t.replace("; ", ";\n") + "\n", "ecode"))
     return texts
